@@ -33,6 +33,17 @@ impl Vp {
         let (hw, hh) = ((r - l) as f64 / 2.0, (b - t) as f64 / 2.0);
         Vp { cx: l as f64 + hw, cy: t as f64 + hh, hw, hh }
     }
+    /// Mirrored viewports: `viewport(pt2(r,t)..pt2(l,b))` maps NDC x = −1 to
+    /// the right edge (negative half-width), likewise for y.
+    pub fn flipped(mut self, flip: (bool, bool)) -> Self {
+        if flip.0 {
+            self.hw = -self.hw;
+        }
+        if flip.1 {
+            self.hh = -self.hh;
+        }
+        self
+    }
     #[inline]
     pub fn to_ndc(&self, p: P2) -> P2 {
         ((p.0 - self.cx) / self.hw, (p.1 - self.cy) / self.hh)
